@@ -487,6 +487,7 @@ class PlanBuilder:
         self.rng = rng
         self.sliced = []  # roots cut by their sequence chunk
         self.orf_roots = []  # coding roots with a planted ORF (often an alternative start codon) on a parent with sequence
+        self.strain_twins = []  # pairs of collections with the same sequence name, length and annotation, other bases
         self.order_twins = []  # pairs of roots that differ only in the order of their children
         self.objects = {}
         self.infos = {}
@@ -699,6 +700,7 @@ def _annotation_roots(pb, rng, size):
         tg = twin["parent"]["genome"]
         tg["seq"] = tg["seq"].translate(str.maketrans("ACGT", "CATG"))
         names.append(pb.add_root("collection", twin))
+        pb.strain_twins.append((names[0], names[-1]))
     # an annotation-free collection on the same parent (a contig nobody has annotated yet): same coordinate system and
     # bounds, no children
     if rng.random() < 0.18 and parent["mode"] != "none":
@@ -1040,6 +1042,27 @@ def gen_plan(rng, check="C10", size=1, max_steps=60, known_avoid=()):
                 st = pb.call_step(len(sessions), n, BY_NAME[kind][rng.choice(qs)], store_p=0.0)
                 if st:
                     steps.append(st)
+            if steps:
+                sessions.append(steps)
+    # strain twins (same names and coordinates, other bases) are asked the very same windows one after the other, and the
+    # results are asked for their sequences: whatever is remembered per (name, window) rather than per content shows
+    for pair in pb.strain_twins:
+        if rng.random() < 0.6:
+            a_, b_ = rng.sample(list(pair), 2)
+            steps = []
+            for _ in range(rng.randint(1, 3)):
+                st = pb.call_step(len(sessions), a_, BY_NAME["collection"]["query_by_position"], store_p=1.0)
+                if not st or "store" not in st:
+                    continue
+                steps.append(st)
+                st2 = {"s": len(sessions), "t": "call", "obj": b_, "op": st["op"], "args": copy.deepcopy(st["args"])}
+                st2["store"] = pb.add_derived(b_, "collection", st["op"], st2["args"])
+                steps.append(st2)
+                for res in (st["store"], st2["store"]):
+                    for x in rng.sample(["get_reference_sequence", "to_dict(crc,parent)", "child", "sequence"], 2):
+                        st3 = pb.call_step(len(sessions), res, BY_NAME["collection"][x], store_p=0.0)
+                        if st3:
+                            steps.append(st3)
             if steps:
                 sessions.append(steps)
     # order twins are asked the order-sensitive questions one after the other (either one first)
